@@ -59,7 +59,8 @@ package volume
 //@ step[C01] "emv1" forall j :: 0 <= j && j < len(highs) - 1 ==> res(Divide, 1)[j] == emvPrevBoxS(highs, lows, volumes)[j]
 //@ use psum_cong(res(Divide, 1), emvPrevBoxS(highs, lows, volumes), _)
 //@ step[C01] "as-implemented" forall k :: 0 <= k && k < len(result) ==> result[k] == smaS(emvPrevBoxS(highs, lows, volumes), e.Sma.Period)[k]
-//@ ensures[C01] "documented" forall k :: 0 <= k && k < len(result) ==> result[k] == smaS(emvRawS(highs, lows, volumes), e.Sma.Period)[k]
+//@ ensures[C01] "as-implemented" forall k :: 0 <= k && k < len(result) ==> result[k] == smaS(emvPrevBoxS(highs, lows, volumes), e.Sma.Period)[k]
+//@ guarantees[C01] "documented" forall k :: 0 <= k && k < len(result) ==> result[k] == smaS(emvRawS(highs, lows, volumes), e.Sma.Period)[k]
 
 // FI = EMA(period, (Current - Previous) * Volume), Volume being the volume of the current bar
 //@ stream fiRawS(c stream, v stream)[j] = (c[j+1] - c[j]) * v[j+1]
@@ -73,7 +74,8 @@ package volume
 //@ step[C01] "raw" forall j :: 0 <= j && j < len(closings) - 1 ==> res(Multiply, 0)[j] == (closings[j+1] - closings[j]) * volumes[j]
 //@ use ema_cong(res(Multiply, 0), fiPrevVolS(closings, volumes), f.Ema.Period, emam(f.Ema), _)
 //@ step[C01] "as-implemented" forall k :: 0 <= k && k < len(result) ==> result[k] == emaS(fiPrevVolS(closings, volumes), f.Ema.Period, emam(f.Ema), k)
-//@ ensures[C01] "documented" forall k :: 0 <= k && k < len(result) ==> result[k] == emaS(fiRawS(closings, volumes), f.Ema.Period, emam(f.Ema), k)
+//@ ensures[C01] "as-implemented" forall k :: 0 <= k && k < len(result) ==> result[k] == emaS(fiPrevVolS(closings, volumes), f.Ema.Period, emam(f.Ema), k)
+//@ guarantees[C01] "documented" forall k :: 0 <= k && k < len(result) ==> result[k] == emaS(fiRawS(closings, volumes), f.Ema.Period, emam(f.Ema), k)
 
 // Money Flow Index: raw money flow = typical price * volume; a bar's flow is positive/negative by the sign of the change
 // of the raw money flow; MFI = 100 - 100 / (1 + sum of positive flows / sum of negative flows) over Period bars.
@@ -140,7 +142,8 @@ package volume
 //@ lit#0 invariant previous == (calls == 0 ? 0 : fn.ret(calls - 1))
 //@ lit#0 yields obvPrev(fn, calls) + (arg0 > obvPrev(fn, calls) ? arg1 : (arg0 < obvPrev(fn, calls) ? 0 - arg1 : 0))
 //@ step[C01] "as-implemented" forall k :: 0 <= k && k < len(result) ==> result[k] == (k == 0 ? 0 : result[k-1]) + (closings[k] > (k == 0 ? 0 : result[k-1]) ? volumes[k] : (closings[k] < (k == 0 ? 0 : result[k-1]) ? 0 - volumes[k] : 0))
-//@ ensures[C01] "documented" forall k :: 1 <= k && k < len(result) ==> result[k] == result[k-1] + (closings[k] > closings[k-1] ? volumes[k] : (closings[k] < closings[k-1] ? 0 - volumes[k] : 0))
+//@ ensures[C01] "as-implemented" forall k :: 0 <= k && k < len(result) ==> result[k] == (k == 0 ? 0 : result[k-1]) + (closings[k] > (k == 0 ? 0 : result[k-1]) ? volumes[k] : (closings[k] < (k == 0 ? 0 : result[k-1]) ? 0 - volumes[k] : 0))
+//@ guarantees[C01] "documented" forall k :: 1 <= k && k < len(result) ==> result[k] == result[k-1] + (closings[k] > closings[k-1] ? volumes[k] : (closings[k] < closings[k-1] ? 0 - volumes[k] : 0))
 
 // VPT = Previous VPT + (Volume * (Current Closing - Previous Closing) / Previous Closing), starting from 0
 //@ stream vptTermS(c stream, v stream)[j] = (c[j+1] - c[j]) / c[j] * v[j+1]
